@@ -67,7 +67,7 @@ func (f *frame) initMap(n *node, ref string, mt types.Type) {
 	ks := x.mapKeySort(m.Key())
 	k := mapHeapKey(mt) + ".dom"
 	arr := x.hget(n.heap, k, SortBool, ks)
-	x.hset(n.heap, k, SortBool, ks, x.g.Fresh(heapArraySort(SortBool, ks), "(store "+arr+" "+ref+" ((as const "+arrSort(ks, SortBool)+") false))"))
+	x.hset(n.heap, k, SortBool, ks, x.g.Fresh(heapArraySort(SortBool, ks), "(store "+arr+" "+ref+" ((as const "+arrSort(ks, SortBool)+") false))"), ref)
 	for _, ep := range f.activeEpochs(n) {
 		ep.written[k] = true
 	}
@@ -88,7 +88,7 @@ func (f *frame) mapUpdate(n *node, in *ssa.MapUpdate) {
 	set := func(key, sort, v string) {
 		arr := x.hget(n.heap, key, sort, ks)
 		inner := "(store (select " + arr + " " + mv.C[0] + ") " + kt + " " + v + ")"
-		x.hset(n.heap, key, sort, ks, g.Fresh(heapArraySort(sort, ks), "(store "+arr+" "+mv.C[0]+" "+inner+")"))
+		x.hset(n.heap, key, sort, ks, g.Fresh(heapArraySort(sort, ks), "(store "+arr+" "+mv.C[0]+" "+inner+")"), mv.C[0])
 		for _, ep := range eps {
 			ep.written[key] = true
 		}
@@ -109,7 +109,7 @@ func (f *frame) mapDelete(n *node, in *ssa.Call) {
 	key := mapHeapKey(mt) + ".dom"
 	arr := x.hget(n.heap, key, SortBool, ks)
 	inner := "(store (select " + arr + " " + mv.C[0] + ") " + kt + " false)"
-	x.hset(n.heap, key, SortBool, ks, x.g.Fresh(heapArraySort(SortBool, ks), "(store "+arr+" "+mv.C[0]+" "+inner+")"))
+	x.hset(n.heap, key, SortBool, ks, x.g.Fresh(heapArraySort(SortBool, ks), "(store "+arr+" "+mv.C[0]+" "+inner+")"), mv.C[0])
 	for _, ep := range f.activeEpochs(n) {
 		ep.written[key] = true
 	}
